@@ -490,6 +490,11 @@ impl Decl {
     }
 
     /// the concrete newtype as named in the glue
+    /// a bound expression that reads run-time state (`less_or_equal = dyn_max()`)
+    pub fn dynamic_bound(&self) -> bool {
+        self.tags.iter().any(|t| t.starts_with("dynamic-bound"))
+    }
+
     /// `default = next_default()`: an expression whose value changes from call to call
     pub fn stateful_default(&self) -> bool {
         self.has(Tr::Default) && self.default.as_ref().is_some_and(|d| d.class == "stateful")
@@ -700,6 +705,10 @@ impl Decl {
                 }
             }
         }
+        if self.dynamic_bound() {
+            w!(o, "static DLIM: ::core::sync::atomic::AtomicI32 = ::core::sync::atomic::AtomicI32::new(10);");
+            w!(o, "pub fn dyn_max() -> i32 {{ DLIM.load(::core::sync::atomic::Ordering::SeqCst) }}");
+        }
         if self.stateful_default() {
             // the default expression reads a per-declaration counter: call i evaluates to default_at(i)
             let body = &self.default.as_ref().unwrap().neutral_text;
@@ -826,6 +835,29 @@ impl Decl {
         }
         w!(o, "}};");
         // const evaluation
+        if self.dynamic_bound() && self.has(Tr::Arbitrary) {
+            // the limit the bound expression reads is changed between rounds of generation; after every change the
+            // generator has to produce exactly the values the constructor accepts now
+            w!(o, "fn arb_history() -> Vec<(String, bool)> {{");
+            w!(o, "    let produce = || {{");
+            w!(o, "        let mut s = ::std::collections::BTreeSet::new();");
+            w!(o, "        for a in 0..=255u8 {{ for tail in [vec![], vec![0u8], vec![255u8, 1]] {{");
+            w!(o, "            let mut b = vec![a]; b.extend(tail);");
+            w!(o, "            if let Ok(v) = vlib::glue::run_arbitrary::<TT, II>(&b, |t| t.into_inner()) {{ s.insert(v); }}");
+            w!(o, "        }} }}");
+            w!(o, "        s");
+            w!(o, "    }};");
+            w!(o, "    let mut out = vec![];");
+            w!(o, "    for lim in [10i32, 20, 5, 10] {{");
+            w!(o, "        DLIM.store(lim, ::core::sync::atomic::Ordering::SeqCst);");
+            w!(o, "        let want: ::std::collections::BTreeSet<II> = (0..=lim).collect();");
+            w!(o, "        let got = vlib::drive::no_panic(produce);");
+            w!(o, "        out.push((format!(\"limit={{lim}}\"), got.map(|g| g == want).unwrap_or(false)));");
+            w!(o, "    }}");
+            w!(o, "    DLIM.store(10, ::core::sync::atomic::Ordering::SeqCst);");
+            w!(o, "    out");
+            w!(o, "}}");
+        }
         if self.stateful_default() {
             // Default called six times in a row; call i must behave as the constructor does on default_at(i)
             w!(o, "fn default_history() -> Vec<(String, bool, Option<bool>)> {{");
@@ -936,6 +968,9 @@ impl Decl {
         }
         if self.has(Tr::Arbitrary) {
             w!(o, "    arbitrary: vlib::g_arbitrary!(),");
+        }
+        if self.dynamic_bound() && self.has(Tr::Arbitrary) {
+            w!(o, "    arb_history: Some(arb_history),");
         }
         if self.has(Tr::Display) {
             w!(o, "    display: vlib::g_display!(),");
